@@ -121,6 +121,7 @@ class Session(BusSession):
                 ops.append(['big', l, 8])
         if any(self.st[l] == 'incomplete' for l in SLOTS):
             ops.append(['advance', 20000])
+        ops.append(['reload'])       # same limits re-read: counters, lists and the capacity in use stay what they are
         return ops
 
     # ------------------------------------------------------------------
@@ -268,6 +269,10 @@ class Session(BusSession):
             self.read_handshake(out, desc)
             self.check_handshakes(out, desc)
             self.hit('disc-' + was)
+        elif kind == 'reload':
+            self.reload_same(out, desc)
+            self.read_handshake(out, desc)
+            self.check_handshakes(out, desc)
         elif kind == 'advance':
             dt = op[1]
             self.advance(dt)
